@@ -141,11 +141,21 @@ func (r *Reader) decodeScanLine() {
 		r.decodeG4ScanLine()
 	} else if r.K == 0 {
 		r.decodeG3ScanLine1D()
+		r.skipToByteBoundary()
 	} else {
 		r.decodeG3ScanLine2D()
+		r.skipToByteBoundary()
 	}
 
 	copy(r.refLine, r.line)
+}
+
+// skipToByteBoundary discards the fill bits after a scan line when
+// EncodedByteAlign is set: every encoded line then begins on a byte boundary.
+func (r *Reader) skipToByteBoundary() {
+	if r.EncodedByteAlign && r.err == nil {
+		r.consumeBits(r.validBits % 8)
+	}
 }
 
 // decodeG4ScanLine decodes a single Group 4 (T.6) scanline.
@@ -153,6 +163,7 @@ func (r *Reader) decodeG4ScanLine() {
 	// Group 4 fax uses pure 2D encoding for all lines
 	// with no EOL codes or line mode switching
 	r.decode2D()
+	r.skipToByteBoundary()
 
 	// Check for EOFB (End of Facsimile Block)
 	// EOFB in Group 4 is 24 bits: 000000000001000000000001
